@@ -31,6 +31,7 @@ Definition qop (o : bop) (x y : val) : val :=
     | Pow =>
       let b' := Qred b in
       if negb (Zpos (Qden b') =? 1) then None                    (* non-integer exponent: outside the exact class *)
+      else if (Qnum b' >? 64) || (Qnum b' <? -64) then None      (* huge exponent: outside the exact class as well *)
       else if Qnum b' >=? 0 then Some (qpow_pos a (Z.to_nat (Qnum b')))
       else if q_is_zero a then None
       else Some (qpow_pos (/ a)%Q (Z.to_nat (- Qnum b')))
